@@ -5,7 +5,7 @@
 //!   standin <mode> [repo]            search; prints one JSON line: {"kind":"standin",...} or {"kind":"none","cases":N}
 //!   standin --replay '<json>'        re-runs the recorded case; exit 1 = reproduced
 //!   standin phrases <file> [zeros]   spelled numbers from tools/spell.py (C01, C16)
-//! modes: ident, stream (C02)  dec (C05)  wf (C06)  consist (C07)  thr (C09)  iter (C15)  orule (C18)  ncase (C11)  facade (C13)
+//! modes: ident, stream (C02)  dec (C05)  wf (C06)  consist (C07)  thr (C09)  iter (C15)  orule (C18)  ncase (C11)  facade (C13)  punct (C10)
 use std::panic::{catch_unwind, AssertUnwindSafe};
 use text2num::word_to_digit::Replace;
 use text2num::lang::{Dutch, English, French, German, Italian, Portuguese, Spanish};
@@ -257,6 +257,25 @@ fn cases(mode: &str) -> Vec<Case> {
                         }),
                     });
                 }
+                // every ordered pair of words of the grammar table (plus function words), after a zero word and around one: no panic
+                let voc = vocabulary(code);
+                let z = match code { "fr" => "zéro", "es" => "cero", "de" => "null", "nl" => "nul", _ => "zero" };
+                for w1 in voc.clone() {
+                    let (c, voc2, z) = (code.to_string(), voc.clone(), z.to_string());
+                    out.push(Case {
+                        descr: serde_json::json!({"mode":"total","lang":code,"first_word":w1}),
+                        run: guard(move || {
+                            let l = lang(&c);
+                            for w2 in &voc2 {
+                                for t in [format!("{} {} {}", z, w1, w2), format!("{} {} {}", w1, z, w2), format!("{} {}", w1, w2)] {
+                                    let _ = text2digits(&t, &l);
+                                    let _ = replace_numbers_in_text(&t, &l, 10.0);
+                                }
+                            }
+                            None
+                        }),
+                    });
+                }
             }
         }
         // C02: a text without number words comes back identical; around a number, the rest of the text is kept verbatim
@@ -486,7 +505,8 @@ fn cases(mode: &str) -> Vec<Case> {
                 // comma, nothing, an ordinary word or a period between them: a number recognised at threshold 0 is reported at
                 // threshold 10 exactly when it is not small or has a neighbour of its kind (commas ignored, word and period break)
                 let items: [(&str, [&str; 6]); 2] = [("en", ["two", "five", "first", "third", "twenty", "thirtieth"]), ("fr", ["deux", "cinq", "premier", "troisième", "vingt", "trentième"])];
-                let seps = [",", "", "pomme", "."];
+                // "800": a token of digits is not a word, it does not isolate its neighbours any more than a comma does
+                let seps = [",", "", "pomme", ".", "800"];
                 for (code, its) in items {
                     let mut seqs: Vec<Vec<String>> = Vec::new();
                     for a in its { for s1 in seps { for b in its {
@@ -653,6 +673,31 @@ fn cases(mode: &str) -> Vec<Case> {
                 });
             }
         }
+        // C10: punctuation between two spelled numbers that could combine keeps them apart
+        "punct" => {
+            let pairs: [(&str, &str, &str, &str, &str); 14] = [
+                ("en", "one hundred", "100", "twenty", "20"), ("en", "sixty", "60", "five", "5"),
+                ("fr", "cent", "100", "vingt", "20"), ("fr", "trente", "30", "deux", "2"),
+                ("es", "mil", "1000", "veinte", "20"), ("es", "doscientos", "200", "tres", "3"),
+                ("pt", "mil", "1000", "vinte", "20"), ("pt", "duzentos", "200", "três", "3"),
+                ("it", "cento", "100", "venti", "20"), ("it", "mille", "1000", "tre", "3"),
+                ("de", "hundert", "100", "zwanzig", "20"), ("de", "tausend", "1000", "drei", "3"),
+                ("nl", "honderd", "100", "twintig", "20"), ("nl", "duizend", "1000", "drie", "3")];
+            // a hyphen glued to a word belongs to that word for the tokenizer, so only the spaced dash is punctuation here
+            let puncts = [", ", "; ", ": ", "! ", "? ", " - ", " – ", " / ", " ( ", ") ", " … ", " \" ", ",", ";"];
+            for (code, a, da, b, db) in pairs {
+                for p in puncts {
+                    let (c, text, want) = (code.to_string(), format!("{}{}{}", a, p, b), format!("{}{}{}", da, p, db));
+                    out.push(Case {
+                        descr: serde_json::json!({"mode":"punct","lang":code,"text":text}),
+                        run: guard(move || {
+                            let r = replace_numbers_in_text(&text, &lang(&c), 0.0);
+                            if r != want { Some(format!("{:?} -> {:?}, expected {:?}: punctuation between two numbers keeps them apart", text, r, want)) } else { None }
+                        }),
+                    });
+                }
+            }
+        }
         // C13: facade == concrete type on every word of the grammar tables alone and on every ordered pair of them (plus function words)
         "facade" => {
             for code in LANGS {
@@ -661,6 +706,16 @@ fn cases(mode: &str) -> Vec<Case> {
                     if c != code { continue }
                     let (c, p) = (c.to_string(), p.replace(['|', '!'], ""));
                     out.push(Case { descr: serde_json::json!({"mode":"facade","lang":c,"text":p}), run: guard(move || facade_by_code(&c, &p)) });
+                }
+                // article + ordinary word + each vocabulary word (+ ordinary word): the shapes the annotation hooks look at (French "neuf", English "o")
+                let (art, plain) = match code { "en" => ("the", "dog"), "fr" => ("un", "chien"), "de" => ("ein", "hund"), "it" => ("un", "cane"), "es" => ("un", "perro"), "nl" => ("een", "hond"), _ => ("um", "cão") };
+                for w in voc.clone() {
+                    let c = code.to_string();
+                    let phrases = vec![format!("{} {} {}", art, plain, w), format!("{} {} {} {}", art, plain, w, plain), format!("{} {} {}", plain, w, plain)];
+                    out.push(Case {
+                        descr: serde_json::json!({"mode":"facade","lang":code,"in_context":w}),
+                        run: guard(move || { for p in &phrases { if let Some(m) = facade_by_code(&c, p) { return Some(m); } } None }),
+                    });
                 }
                 for w1 in voc.clone() {
                     let (c, voc2) = (code.to_string(), voc.clone());
